@@ -29,6 +29,7 @@ LEVEL_NOTE = ("Faults are injected only where the property quantifies them (user
 RULE = ("case = (scenario, functional or history, representation, phase, crash-index selection); non-trivial = at least one injected "
         "crash was reached (Boom observed) and the object snapshot contained at least one tensor, or (history scenarios) the history "
         "performed at least one substitution / flag change")
+RULE += ('; linop scenario also with operators composed of repeated building blocks (parameter list with repeated tensors)')
 MIN_NONTRIVIAL = {"quick": 300, "thorough": 1500}
 REQUIRED_COUNTERS = {"quick": {"linop_composed_cases": 8, "crash_points_reached": 1500, "restore_events": 3000, "snapshots_compared": 2000},
                      "thorough": {"linop_composed_cases": 40, "crash_points_reached": 15000, "restore_events": 30000, "snapshots_compared": 20000}}
